@@ -41,8 +41,9 @@ def workdir(tag):
 def run_tlc(module, cfg_text, wd, env=None, workers=1, heap="2g", extra=None, timeout=3600, simulate=None):
     """Run TLC on spec/<module>.tla with the given cfg text.  Returns (returncode, stdout)."""
     ensure_built()
-    cfg = os.path.join(wd, "%s_%d.cfg" % (module, abs(hash(cfg_text)) % 10**8))
-    with open(cfg, "w") as f:
+    # one cfg file per invocation: concurrent shards must never see each other's half-written file
+    fd, cfg = tempfile.mkstemp(prefix=module + "_", suffix=".cfg", dir=wd)
+    with os.fdopen(fd, "w") as f:
         f.write(cfg_text)
     meta = tempfile.mkdtemp(prefix="meta-", dir=wd)
     cmd = ["java", "-Xmx" + heap, "-XX:+UseSerialGC" if workers == 1 else "-XX:+UseParallelGC",
